@@ -1,7 +1,7 @@
 (* C15 -- Operand and successor views are complete and live. *)
 From Coq Require Import List Bool Arith String.
 From LLIR Require Import Model.Users Gen.Operands Gen.Formats.
-From LLIR Require Import Proofs.UsersProofs Proofs.GenTables Proofs.FormatProofs.
+From LLIR Require Import Proofs.UsersProofs Proofs.SuccsProofs Proofs.GenTables Proofs.FormatProofs.
 Import ListNotations.
 Local Open Scope string_scope.
 
@@ -47,6 +47,31 @@ Theorem C15_operands_are_printed :
 Proof. exact operands_are_printed. Qed.
 Theorem C15_number_of_user_types : List.length user_rows = 66.
 Proof. exact number_of_user_types. Qed.
+(* Succs() of the nine terminators with targets reads exactly the target fields, in the order of the label
+   operands of the assembly syntax (regenerated table against the reviewed order) *)
+Theorem C15_succs_in_target_order : succ_rows = succ_order_reviewed.
+Proof. exact succs_in_target_order. Qed.
 (* the nine terminators with targets cache Succs() (KF-17: not invalidated by a later write) *)
 Theorem C15_succs_cached : List.length caching_rows = 9.
 Proof. exact succs_cached. Qed.
+
+(* the successor view as a cache (Model/Users.v: Succs() returns the Successors field once it is filled):
+   any number of queries of a terminator whose cache is empty or agrees with its targets return exactly the
+   targets, in order, and leave them alone; a write before the first query is seen by it ... *)
+Theorem C15_succs_are_targets : forall (block : Type) h (t : term block), consistent block t -> only_queries block h ->
+  Forall (fun o => o = t_targets block t) (fst (trun block h t)) /\ t_targets block (snd (trun block h t)) = t_targets block t.
+Proof. exact succs_are_targets. Qed.
+Theorem C15_write_then_succs : forall (block : Type) (t : term block) i b, fresh block t ->
+  fst (succs block (write_target block t i b)) = Users.set_nth block i b (t_targets block t).
+Proof. exact write_then_succs. Qed.
+(* ... but "Succs() is always the current targets" is false of the model, as it is of the code (KF-17): a target
+   written through its slot after a first query is not seen, exactly when it differs from the old one *)
+Theorem C15_succs_live_refuted : exists (t : term nat) i b,
+  fresh nat t /\
+  let t1 := snd (succs nat t) in let t2 := write_target nat t1 i b in
+  fst (succs nat t2) <> t_targets nat t2.
+Proof. exact succs_live_refuted. Qed.
+Theorem C15_succs_stale_iff : forall (t : term nat) i b, fresh nat t -> i < List.length (t_targets nat t) ->
+  let t2 := write_target nat (snd (succs nat t)) i b in
+  fst (succs nat t2) = t_targets nat t2 <-> nth_error (t_targets nat t) i = Some b.
+Proof. exact succs_stale_iff. Qed.
